@@ -31,8 +31,8 @@ def register_custom():
     R = stix2.registry.STIX2_OBJ_MAPS
     if "x-verif-idsco" not in R["2.1"]["observables"]:
         @stix2.v21.CustomObservable("x-verif-idsco", [("alpha", P.StringProperty()), ("num", P.FloatProperty()), ("count", P.IntegerProperty()), ("when", P.TimestampProperty()),
-                                                       ("flags", P.ListProperty(P.StringProperty)), ("meta", P.DictionaryProperty(spec_version="2.1")), ("other", P.StringProperty())],
-                                    ["alpha", "num", "count", "when", "flags", "meta"])
+                                                       ("flags", P.ListProperty(P.StringProperty)), ("meta", P.DictionaryProperty(spec_version="2.1")), ("other", P.StringProperty()), ("flag", P.BooleanProperty())],
+                                    ["alpha", "num", "count", "when", "flags", "meta", "flag"])
         class A(object):
             pass
     if "x-verif-noid" not in R["2.1"]["observables"]:
@@ -43,8 +43,8 @@ def register_custom():
     if "observables:x-verif-idsco" not in sp.classes:
         f = sp.classes["observables:file"]["properties"]
         base = {n: f[n] for n in ("spec_version", "id", "object_marking_refs", "granular_markings", "defanged", "extensions")}
-        sp.classes["observables:x-verif-idsco"] = {"name": "A", "category": "observables", "type": "x-verif-idsco", "order": [], "id_contributing": ["alpha", "num", "count", "when", "flags", "meta"],
-                                                   "properties": dict(base, type={"kind": "type", "fixed": "x-verif-idsco"}, alpha={"kind": "string"}, num={"kind": "float"}, count={"kind": "integer"},
+        sp.classes["observables:x-verif-idsco"] = {"name": "A", "category": "observables", "type": "x-verif-idsco", "order": [], "id_contributing": ["alpha", "num", "count", "when", "flags", "meta", "flag"],
+                                                   "properties": dict(base, type={"kind": "type", "fixed": "x-verif-idsco"}, alpha={"kind": "string"}, num={"kind": "float"}, count={"kind": "integer"}, flag={"kind": "boolean"},
                                                                       when={"kind": "timestamp", "fraction": "any"}, flags={"kind": "list", "of": {"kind": "string"}}, meta={"kind": "dictionary"},
                                                                       other={"kind": "string"})}
         sp.classes["observables:x-verif-noid"] = {"name": "B", "category": "observables", "type": "x-verif-noid", "order": [], "id_contributing": [],
@@ -244,18 +244,51 @@ def run_case(case, part):
             if key == "observables:file":
                 j.pop("name", None)
             check_instance(part, j, key, dict(case, label=label), "hashes-alias" if "alias" in label else "hashes", collect)
+    elif case["kind"] == "extension-values":
+        mn = {k: v for k, v in g.minimal(key).items() if k != "id"}
+        H = gen.HASHES
+        menu = []
+        if key == "observables:file":
+            for ent in (1.0, 0.0, 1.5e-05, 1.25e-05, 1e-05, 9.999e-05, 0.00015, 7.999999, 1e21, 5e-324):
+                menu.append(("pe-section-entropy=%r" % ent, {"windows-pebinary-ext": {"pe_type": "exe", "sections": [{"name": ".text", "entropy": ent}]}}))
+            for hs in (("MD5", "SHA-256"), ("SHA-256", "MD5"), ("SHA-256", "SHA-512"), ("SHA-512", "SHA-1", "SHA3-256"), ("SHA3-256", "SSDEEP")):
+                hd = {a: H[a] for a in hs}
+                menu.append(("pe-section-hashes=" + "+".join(hs), {"windows-pebinary-ext": {"pe_type": "exe", "sections": [{"name": ".text", "hashes": hd}]}}))
+                menu.append(("pe-optional-header-hashes=" + "+".join(hs), {"windows-pebinary-ext": {"pe_type": "exe", "optional_header": {"hashes": hd}}}))
+                menu.append(("pe-file-header-hashes=" + "+".join(hs), {"windows-pebinary-ext": {"pe_type": "exe", "file_header_hashes": hd}}))
+                menu.append(("ntfs-ads-hashes=" + "+".join(hs), {"ntfs-ext": {"alternate_data_streams": [{"name": "s", "hashes": hd}]}}))
+            menu.append(("pdf-is_optimized=true", {"pdf-ext": {"is_optimized": True, "version": "1.7"}}))
+            menu.append(("pdf-is_optimized=false", {"pdf-ext": {"is_optimized": False, "version": "1.7"}}))
+            menu.append(("raster-heights-1", {"raster-image-ext": {"image_height": 1, "image_width": 0}}))
+        else:
+            for a, b in ((True, False), (False, True), (True, True)):
+                menu.append(("socket-flags=%s,%s" % (a, b), {"socket-ext": {"address_family": "AF_INET", "is_blocking": a, "is_listening": b}}))
+            menu.append(("socket-options", {"socket-ext": {"address_family": "AF_INET", "options": {"SO_KEEPALIVE": 1, "SO_RCVBUF": 0}}}))
+            menu.append(("icmp", {"icmp-ext": {"icmp_type_hex": "08", "icmp_code_hex": "00"}}))
+            menu.append(("http-request", {"http-request-ext": {"request_method": "get", "request_value": "/", "request_header": {"B": ["1"], "A": ["2", "1"]}}}))
+            menu.append(("tcp-flags", {"tcp-ext": {"src_flags_hex": "00000002"}}))
+        # forwards, then backwards: in one process a float 1.0 meets a boolean true (and 0 meets false) in both orders
+        for label, ext in menu + menu[::-1]:
+            if case.get("label") and label != case["label"]:
+                continue
+            j = dict(copy.deepcopy(mn), extensions=copy.deepcopy(ext))
+            if model.validate(dict(j, id=gen.uid(j["type"], 1)), "2.1"):
+                raise RuntimeError("extension menu entry %s is not valid for the frozen model: %r" % (label, model.validate(dict(j, id=gen.uid(j["type"], 1)), "2.1")[:1]))
+            check_instance(part, j, key, dict(case, label=label), "extension-values/" + label.split("=")[0], collect)
     elif case["kind"] == "custom":
-        vals = {"alpha": ["a", "", "Ünï 😀 \u0000\n\"\\", "€\U0001f600דּ"], "num": [0.5, 0.0, -0.0, 1e22, 5e-324, 2.5e16, 1.5e17, 1e21, 1e-7, 123456789012345680000.0],
-                "count": [0, 1, -1, 2 ** 53 + 1, 2 ** 60, 10 ** 21], "when": ["2016-05-12T08:17:27Z", "2016-05-12T08:17:27.000Z", "2016-05-12T08:17:27.120Z", "2016-05-12T08:17:27.123456Z"],
+        vals = {"alpha": ["a", "", "Ünï 😀 \u0000\n\"\\", "€\U0001f600דּ"], "num": [0.5, 0.0, -0.0, 1.0, 1e22, 5e-324, 2.5e16, 1.5e17, 1e21, 1e-7, 123456789012345680000.0, 1.5e-05, 1.25e-05, 9.999e-05, 1e-05, 1.5e-06, 0.00015, 2.0 ** 68, 1e16 + 2],
+                "flag": [True, False],
+                "count": [0, 1, -1, 2 ** 53 + 1, 2 ** 60, 10 ** 21, 2 ** 68], "when": ["2016-05-12T08:17:27Z", "2016-05-12T08:17:27.000Z", "2016-05-12T08:17:27.120Z", "2016-05-12T08:17:27.123456Z"],
                 "flags": [["a"], ["a", "a"], ["b", "a"], ["a", "b"]], "meta": [{"key": "v"}, {"b": 1, "a": {"d": [1.5, {"z": None}], "c": 2}}, {"€": 1, "\U0001f600": 2, "דּ": 3}]}
         if key == "observables:x-verif-noid":
             check_instance(part, {"type": "x-verif-noid", "spec_version": "2.1", "alpha": "a"}, key, case, "custom-observable-without-contributing", collect)
         else:
-            for n, vs in vals.items():
-                for i, v in enumerate(vs):
-                    if n == "meta" and v == vals["meta"][1]:
-                        v = {"b": 1, "a": {"d": [1.5, {"z": 0}], "c": 2}}
-                    check_instance(part, {"type": "x-verif-idsco", "spec_version": "2.1", n: v, "other": "o"}, key, dict(case, prop=n, index=i), "custom-observable/%s" % n, collect)
+            todo = [(n, i, v) for n, vs in vals.items() for i, v in enumerate(vs)]
+            # the whole menu forwards and then backwards in ONE process: values that are equal across types (1, 1.0, True) meet in both orders
+            for n, i, v in todo + todo[::-1]:
+                if n == "meta" and v == vals["meta"][1]:
+                    v = {"b": 1, "a": {"d": [1.5, {"z": 0}], "c": 2}}
+                check_instance(part, {"type": "x-verif-idsco", "spec_version": "2.1", n: v, "other": "o"}, key, dict(case, prop=n, index=i), "custom-observable/%s" % n, collect)
             check_instance(part, {"type": "x-verif-idsco", "spec_version": "2.1", "other": "only non-contributing"}, key, case, "custom-observable-none-present", collect)
     return collect
 
@@ -279,6 +312,8 @@ def run(run):
         cases.append({"kind": "subsets", "key": key})
         if "hashes" in sp.classes[key]["properties"]:
             cases.append({"kind": "hashes", "key": key})
+        if "extensions" in sp.classes[key]["id_contributing"]:
+            cases.append({"kind": "extension-values", "key": key})
     run.mode = "DEV"
     run.part.results = []
     run.pmap(run_case, cases)
